@@ -348,6 +348,16 @@ carquet_status_t carquet_page_writer_add_values(
         if (lstatus != CARQUET_OK) {
             return lstatus;
         }
+    } else if (writer->max_def_level > 0) {
+        /* No definition levels given for a nullable column: every value is
+         * present.  The page still needs its level block (readers expect one). */
+        for (int64_t i = 0; i < num_values; i++) {
+            carquet_status_t lstatus = carquet_buffer_append(
+                &writer->def_levels_buffer, &writer->max_def_level, sizeof(int16_t));
+            if (lstatus != CARQUET_OK) {
+                return lstatus;
+            }
+        }
     }
 
     if (writer->max_rep_level > 0 && rep_levels) {
